@@ -251,4 +251,36 @@ PROPS = {
         "partial": [],
         "assumptions": [],
     },
+    "C13": {
+        "lean_modules": ["StimModel.Props.C13"],
+        "areas": [
+            {"area": "rewrite", "n": {"quick": 360, "thorough": 6000}, "replayable": True},
+        ],
+        "rule": "random circuits on 2..4 qubits (unitary; measuring incl. MPP, pair measurements with overlapping and inverted targets, SPP; feedback CX/CY/CZ/XCZ/YCZ with the bit on either documented side; "
+                "sweep controls, MPAD, noise, detectors/observables, annotations, nested REPEAT) and stabilizer-measurement circuits with noise, heralded channels and feedback; random tags on instructions "
+                "and blocks. simplified_circuit and flattened: same measurement count, flow-equivalent with signs to the input (equal gauge row spaces + a common signed basis + record-defined observables), "
+                "for the noisy circuits the rewritten circuit's detector error model must describe the input's noise (distribution oracle); without_noise / without_tags: equal, up to fusion, to the reference "
+                "rewrites; inverse of unitary circuits: c ; c^-1 has all 2n identity flows with sign; circuit_with_inlined_feedback: no feedback left, same measurement count, its model describes the input's "
+                "noise; circuit_inverse_qec with 0..3 flows the circuit has, both settings of dont_turn_measurements_into_resets: returned flows have swapped ends and hold (unsigned) in the returned "
+                "circuit, same number of detectors, none of them non-deterministic; exceptions only with the documented 'not supported' messages; distinct = distinct circuit texts",
+        "trusted_base": [],
+        "partial": [],
+        "assumptions": [],
+    },
+    "C19": {
+        "lean_modules": ["StimModel.Props.C19"],
+        "areas": [
+            {"area": "gencode", "n": {"quick": 240, "thorough": 2400}, "replayable": False, "timeout": 3000},
+        ],
+        "rule": "all six (code, task) pairs in turn; distances 2..9 (odd 3..9 for the colour code), rounds 1..8 (2.. for the colour code), all 16 subsets of the four noise parameters with values from "
+                "{0.001, 0.01, 0.125, 0.5, 1}: text round trip and re-print fixpoint, closed-form detector counts (repetition, unrotated, odd rotated), one observable; distances 2..4 / rounds 1..3 additionally "
+                "through the Lean model (`gencode check`: executable, counts, every detector and observable deterministic, all zero on the reference sample); round counts 1000 .. 10^18+2 (incl. around 2^32): "
+                "equal to the small-round template (same position in the colour code's period) with exactly one REPEAT count grown by the difference, detector count affine / closed form in 128 bits "
+                "(saturating), loop-folded analysis of the noiseless circuit accepts (<= 10^12 rounds), text round trip; invalid parameters (rounds 0, distance < 2 or even for colour, probability 1.5 / -0.25, "
+                "unknown task) rejected; distance: repetition/surface memory tasks d=2..5 with all four noise parameters on: shortest graphlike error has exactly d errors and is checked by the Lean search "
+                "checker to be an undetectable logical error of the decomposed model; distinct = distinct parameter tuples",
+        "trusted_base": [],
+        "partial": [],
+        "assumptions": [],
+    },
 }
